@@ -135,6 +135,12 @@ pub trait Component<P: Problem>: AnyComponent {
 
     /// Executes the component, performing the actual logic.
     fn execute(&self, problem: &P, state: &mut State<P>) -> ExecResult<()>;
+
+    /// The type name of the component (verification hook).
+    #[cfg(mahf_verif)]
+    fn verif_name(&self) -> &'static str {
+        std::any::type_name::<Self>()
+    }
 }
 
 erased_serde::serialize_trait_object!(<P: Problem> Component<P>);
